@@ -39,17 +39,18 @@ def hasDup : List Nat → Bool
   | x :: xs => xs.contains x || hasDup xs
 
 /-- F-C13-2: a domain-less query over a type below which some class is reachable along two inheritance paths -/
-def trigDiamond (ops : List Op) : Bool :=
-  ops.any (fun op => match op with | .mkq _ c none => hasDup (schema.below c) | _ => false)
+def trigDiamond (S : Schema) (ops : List Op) : Bool :=
+  ops.any (fun op => match op with | .mkq _ c none => hasDup (S.below c) | _ => false)
 
 def run (s : Sexp) : String :=
   match s with
   | .list (.atom "h" :: xs) =>
     match parseOps xs with
     | some ops =>
-      let m := obs (runD Quirks.asIs ops).h.out
-      let mr := obs (runD Quirks.none ops).h.out
-      let trig := joinTrig [(trigReeval ops, "F-C13-1"), (trigDiamond ops, "F-C13-2")]
+      let S := schemaWith (parseDefs xs)
+      let m := obs (runS S Quirks.asIs ops).h.out
+      let mr := obs (runS S Quirks.none ops).h.out
+      let trig := joinTrig [(trigReeval ops, "F-C13-1"), (trigDiamond S ops, "F-C13-2")]
       s!"model={m}\tspec=ok|*\ttrig={trig}\tmodel_repaired={mr}"
     | none => "error=bad-case"
   | _ => "error=bad-case"
